@@ -35,7 +35,7 @@
 (*   "printed" with either = TRUE (refusing is allowed as well).           *)
 (* Anchors: src/main.rs, src/cmd.rs, src/cmd/*.rs.                          *)
 (***************************************************************************)
-EXTENDS Bytes, Prim, Numbers, Rlp, Ecdsa, Tx, Bip39, HdPath, Bip32, SigText, Eip191, HexCodec, Eip712
+EXTENDS Bytes, Prim, Numbers, Rlp, Ecdsa, Tx, Bip39, HdPath, Bip32, SigText, Eip191, HexCodec, Eip712, Args
 
 NoOpt == [src |-> "none", v |-> ""]
 HasFlag(cmd, f) == \E i \in 1..Len(cmd.flags) : cmd.flags[i] = f
@@ -46,9 +46,26 @@ OptNames == [mnemonic |-> <<"--mnemonic", "MNEMONIC">>, password |-> <<"--passwo
 OptOrder == <<"mnemonic", "password", "index", "path">>
 NeedsAccount(cmd) == cmd.sub \in {"address", "export", "public-key", "sign"}
 
-AcctArgv(cmd) ==
-  Concat([i \in 1..4 |-> LET o == cmd.acct[OptOrder[i]] IN
-            IF o.src = "flag" THEN <<OptNames[OptOrder[i]][1], o.v>> ELSE <<>>])
+\* A command may carry a spelling style (how its options are written on the command line; the meaning is the same):
+\*   style = [opt, rev, late, dd]   opt in Args!Styles: the spelling of every option (--long V, --long=V, -s V, -sV, -s=V)
+\*                                  rev:  the account options in reverse order
+\*                                  late: the inner subcommand's flags / options AFTER the positional argument
+\*                                  dd:   a "--" before the positional argument
+\* and a mutation (a slip of the user that the argument parser must refuse):
+\*   mut = [k, at]   "drop": token `at` removed, "dup": token `at` repeated where it stands, "unknown": an undeclared
+\*                   option inserted before token `at`, "surplus": a further argument appended,
+\*                   "acct_late": the account options of `sign` named in mut.late (a sequence of keys) after the inner
+\*                   subcommand instead of before it
+\* Commands without these fields are written in style sp (the style of every workload before Args.tla existed).
+StyleOf(cmd) == IF "style" \in DOMAIN cmd THEN cmd.style ELSE [opt |-> "sp", rev |-> FALSE, late |-> FALSE, dd |-> FALSE]
+InSeq(x, sq) == \E k \in 1..Len(sq) : sq[k] = x
+\* the account options whose key is (wantLate) / is not (~wantLate) in the sequence `late`
+AcctArgvOf(cmd, late, wantLate) ==
+  LET sty == StyleOf(cmd)
+      ord == IF sty.rev THEN <<4, 3, 2, 1>> ELSE <<1, 2, 3, 4>>
+  IN  Concat([i \in 1..4 |-> LET o == cmd.acct[OptOrder[ord[i]]] IN
+                IF o.src = "flag" /\ (InSeq(OptOrder[ord[i]], late) <=> wantLate) THEN RenderOpt(OptOrder[ord[i]], o.v, sty.opt) ELSE <<>>])
+AcctArgv(cmd) == AcctArgvOf(cmd, <<>>, FALSE)
 EnvOf(cmd) ==
   LET used == {i \in 1..4 : cmd.acct[OptOrder[i]].src = "env"}
   IN  [nm \in {OptNames[OptOrder[i]][2] : i \in used} |->
@@ -58,19 +75,32 @@ FileName(cmd) == IF "fname" \in DOMAIN cmd.inp THEN cmd.inp.fname ELSE "in"
 InputArg(cmd) == IF cmd.chan \in {"file", "fifo"} THEN <<"@F:" \o FileName(cmd)>> ELSE IF cmd.chan = "stdin" THEN <<"-">>
                  ELSE IF cmd.chan = "devstdin" THEN <<"/dev/stdin">>
                  ELSE IF cmd.chan = "arg" THEN <<cmd.inp.arg>> ELSE <<>>
-Argv(cmd) ==
+\* inner options then positional, or the other way round; an optional "--" directly before the positional
+Inner(cmd, optsToks) ==
+  LET sty == StyleOf(cmd)
+      pos == (IF sty.dd THEN <<"--">> ELSE <<>>) \o InputArg(cmd)
+  IN  IF sty.late /\ ~sty.dd THEN pos \o optsToks ELSE optsToks \o pos
+Argv0(cmd) ==
+  LET sty == StyleOf(cmd)
+      late == IF "mut" \in DOMAIN cmd /\ cmd.mut.k = "acct_late" THEN cmd.mut.late ELSE <<>>
+  IN
   IF cmd.sub \in {"address", "export", "public-key"} THEN <<cmd.sub>> \o AcctArgv(cmd)
   ELSE IF cmd.sub = "sign" THEN
-    <<"sign">> \o AcctArgv(cmd) \o <<cmd.what>>
-      \o (IF HasFlag(cmd, "signature_only") THEN <<"--signature-only">> ELSE <<>>)
-      \o (IF HasFlag(cmd, "allow_missing") THEN <<"--allow-missing-relay-protection">> ELSE <<>>)
-      \o InputArg(cmd)
+    <<"sign">> \o AcctArgvOf(cmd, late, FALSE) \o <<cmd.what>> \o AcctArgvOf(cmd, late, TRUE)
+      \o Inner(cmd, (IF HasFlag(cmd, "signature_only") THEN RenderOpt("signature_only", "", sty.opt) ELSE <<>>)
+                    \o (IF HasFlag(cmd, "allow_missing") THEN RenderOpt("allow_missing", "", sty.opt) ELSE <<>>))
   ELSE IF cmd.sub = "hash" THEN
     <<"hash", cmd.what>>
-      \o (IF cmd.sigtext # "" THEN <<"--signature", cmd.sigtext>> ELSE <<>>)
-      \o (IF HasFlag(cmd, "message_hash") THEN <<"--message-hash">> ELSE <<>>)
-      \o InputArg(cmd)
-  ELSE <<"hex", cmd.what>> \o InputArg(cmd)       \* hex encode / decode (default input: stdin)
+      \o Inner(cmd, (IF cmd.sigtext # "" THEN RenderOpt("signature", cmd.sigtext, sty.opt) ELSE <<>>)
+                    \o (IF HasFlag(cmd, "message_hash") THEN RenderOpt("message_hash", "", sty.opt) ELSE <<>>))
+  ELSE <<"hex", cmd.what>> \o Inner(cmd, <<>>)       \* hex encode / decode (default input: stdin)
+Mutate(a, m) ==
+  IF m.k = "drop" THEN SubSeq(a, 1, m.at - 1) \o SubSeq(a, m.at + 1, Len(a))
+  ELSE IF m.k = "dup" THEN SubSeq(a, 1, m.at) \o SubSeq(a, m.at, Len(a))
+  ELSE IF m.k = "unknown" THEN SubSeq(a, 1, m.at - 1) \o <<"--frobnicate">> \o SubSeq(a, m.at, Len(a))
+  ELSE IF m.k = "surplus" THEN a \o <<"extra">>
+  ELSE a
+Argv(cmd) == IF "mut" \in DOMAIN cmd THEN Mutate(Argv0(cmd), cmd.mut) ELSE Argv0(cmd)
 
 \* ---- pipeline state ---------------------------------------------------------------
 InitState(cmd) ==
@@ -81,12 +111,21 @@ FailWith(st, why) == [st EXCEPT !.pc = "failed", !.why = why, !.out = <<>>]
 OpenWith(st, why) == [st EXCEPT !.pc = "open", !.why = why]
 Line(codes) == codes \o <<10>>
 
-\* stage "options": what the argument parser must refuse
+\* stage "options": the argument parser - the token machine of Args.tla over the rendered command line and the
+\* environment.  What it must refuse: an unusable command line (usage errors of Args!ParseArgv, among them a missing
+\* mnemonic and the two account selectors combined, from whichever source).  For a command line the machine accepts,
+\* its meaning is the command (MC_Args: rendering and parsing are inverse for every style), so the later stages read cmd.
 StepOptions(st) ==
-  LET c == st.cmd IN
-  IF NeedsAccount(c) /\ c.acct.mnemonic.src = "none" THEN FailWith(st, "mnemonic_required")
-  ELSE IF NeedsAccount(c) /\ c.acct.index.src # "none" /\ c.acct.path.src # "none" THEN FailWith(st, "selectors_combined")
-  ELSE [st EXCEPT !.pc = IF NeedsAccount(c) THEN "account" ELSE "input"]
+  LET c == st.cmd
+      p == ParseArgv(Argv(c), EnvOf(c))
+  IN  \* C16: the two account selectors cannot be combined - wherever on the line and from whichever source they come
+      IF NeedsAccount(c) /\ c.acct.index.src # "none" /\ c.acct.path.src # "none" THEN FailWith(st, "selectors_combined")
+      ELSE IF p.err \in {"mnemonic_required", "selectors_combined"} THEN FailWith(st, p.err)
+      \* any other unusable line: the design refuses it (no listed property speaks about it: Judge!CliRefusalProps)
+      ELSE IF p.err # "" THEN FailWith(st, "usage_" \o p.err)
+      \* a slip that happens to leave another well-formed line (a dropped flag, say): that line is another command
+      ELSE IF "mut" \in DOMAIN c THEN OpenWith(st, "mutated_line_is_another_command")
+      ELSE [st EXCEPT !.pc = IF NeedsAccount(c) THEN "account" ELSE "input"]
 
 \* stage "account": mnemonic -> seed -> path -> key
 StepAccount(st) ==
